@@ -252,7 +252,7 @@ def handle1 (args : List String) : String :=
   | "norm" :: a =>
     let kind : More.NormKind := match getS a "kind" with | "ln" => .layerNorm | "lnbias" => .layerNormBias | _ => .rmsNorm
     let on (k : String) : Option Nat := (getOptInt a k).map Int.toNat
-    let p : More.NormFusion := { kind := kind, xDtype := on "x", scaleDtype := on "sc", epsSingleton := getBool a "eps1", epsIsFloat := getS a "epsf" != "0", computeDtype := on "cd", xRank := getNat a "xr", otherRank := getNat a "or", opset := getNat a "opset" }
+    let p : More.NormFusion := { kind := kind, xDtype := on "x", scaleDtype := on "sc", epsSingleton := getBool a "eps1", epsIsFloat := getS a "epsf" != "0", computeDtype := on "cd", xRank := on "xr", otherRank := on "or", opset := getNat a "opset" }
     (match p.run with
      | .fire r => s!"fire stash={match r.stashType with | some t => toString t | none => "-"} hyp={b2s p.hyp}"
      | .raises => "raise"
